@@ -68,6 +68,9 @@ def gen(ctx):
                     cf["file"] = pic
                 nreq = int(2.8 * (size // limit)) + 10
                 labels = ["D0", "a1:" + hexs(URI)]
+                if rng.random() < 0.25:
+                    # the application has dropped its ConnectionEvents (allowed) and subsystems change before / while the picture loads
+                    labels = ["D0", "S*", "Z"] + ["N:" + hexs(rng.choice(L.SUBSYSTEMS)) for _ in range(rng.choice([0, 1, 2]))] + ["a1:" + hexs(URI)]
                 other = 1
                 for k in range(nreq):
                     labels += ["S*"]
